@@ -81,12 +81,13 @@ def soft_fr(u, t):
     return a if u > 0 else -a
 
 
-def obj_fr(A, y, eps, x):
-    """||y - A x||^2 + eps ||x||_1 exactly (real)."""
+def obj_fr(A, y, eps, x, S=None):
+    """||y - A x||^2 + eps ||S^T x||_1 exactly (real; S = None -> identity)."""
     A = [[fr(a) for a in r] for r in A]
     x = [fr(a) for a in x]
     r = [fr(b) - sum(a * c for a, c in zip(row, x)) for row, b in zip(A, y)]
-    return sum(a * a for a in r) + fr(eps) * sum(abs(a) for a in x)
+    c = x if S is None else [sum(fr(S[i][j]) * x[i] for i in range(len(x))) for j in range(len(x))]
+    return sum(a * a for a in r) + fr(eps) * sum(abs(a) for a in c)
 
 
 def obj_c(A, y, eps, x):
@@ -209,14 +210,37 @@ def dyadic_below(v, bits=8):
     return math.floor(v * 2.0 ** k) / 2.0 ** k
 
 
+ROT = [(3.0, 4.0, 5.0), (5.0, 12.0, 13.0), (8.0, 15.0, 17.0)]
+
+
+def make_S(r, n):
+    """non-symmetric orthonormal matrix: 2x2 rotations (Pythagorean cos/sin) and +-1 on the diagonal blocks,
+    rows cyclically shifted, columns signed (entries are floats; orthonormal to ~1e-16)"""
+    for _ in range(20):
+        B = np.zeros((n, n))
+        k = 0
+        while k < n:
+            if k + 1 < n and r.random() < 0.7:
+                a, b, c = r.choice(ROT)
+                B[k, k], B[k, k + 1], B[k + 1, k], B[k + 1, k + 1] = a / c, -b / c, b / c, a / c
+                k += 2
+            else:
+                B[k, k] = r.choice([1.0, -1.0])
+                k += 1
+        S = np.roll(B, r.randint(0, n - 1), axis=0) * np.array([r.choice([1.0, -1.0]) for _ in range(n)])[None, :]
+        if not np.allclose(S, S.T):
+            return S
+    return S
+
+
 def gen_problems(tier):
     r = common.rng(PID, "problems")
-    nprob = 60 if tier == "quick" else 500
+    nprob = 36 if tier == "quick" else 400
+    nextra = 6 if tier == "quick" else 40
     probs = []
     epsg = [0.125, 0.5, 1.0, 2.5, 4.0, 0.03125]
-    for i in range(nprob):
-        cplx = (i % 5 == 4)
-        m, n = r.randint(1, 5), r.randint(1, 5)
+
+    def mk(cplx, m, n, R, x0k, ak, fam):
         lim = 2 if cplx else 3
         while True:
             A = np.array([[r.randint(-lim, lim) for _ in range(n)] for _ in range(m)], dtype=float)
@@ -224,27 +248,51 @@ def gen_problems(tier):
                 A = A + 1j * np.array([[r.randint(-lim, lim) for _ in range(n)] for _ in range(m)], dtype=float)
             if np.abs(A).max() > 0:
                 break
-        R = r.choice([1, 1, 1, 2, 3]) if not cplx else r.choice([1, 1, 2])
-        y = np.array([[r.randint(-6, 6) for _ in range(R)] for _ in range(m)], dtype=float)
-        if cplx:
-            y = y + 1j * np.array([[r.randint(-6, 6) for _ in range(R)] for _ in range(m)], dtype=float)
-        x0k = r.choice(["none", "zeros", "random", "random"])
-        if x0k == "random":
-            x0 = np.array([[r.randint(-4, 4) for _ in range(R)] for _ in range(n)], dtype=float)
+
+        def rv(k, lo):
+            v = np.array([[r.randint(-lo, lo) for _ in range(R)] for _ in range(k)], dtype=float)
             if cplx:
-                x0 = x0 + 1j * np.array([[r.randint(-4, 4) for _ in range(R)] for _ in range(n)], dtype=float)
-        elif x0k == "zeros":
-            x0 = np.zeros((n, R), dtype=complex if cplx else float)
-        else:
-            x0 = None
+                v = v + 1j * np.array([[r.randint(-lo, lo) for _ in range(R)] for _ in range(k)], dtype=float)
+            return v
+        y = rv(m, 6)
+        x0 = rv(n, 4) if x0k == "random" else (np.zeros((n, R), dtype=complex if cplx else float) if x0k == "zeros" else None)
         lam = float(np.linalg.eigvalsh(A.conj().T @ A).max())
-        ak = r.choice(["max", "max", "half", "default"])
         if ak == "default" and n < 3:
             ak = "max"      # LinearOperator.eigs(neigs=1) raises for 1 column (real) / <= 2 columns (complex): observation, outside C13
         alpha = None if ak == "default" else dyadic_below(1.0 / lam) * (0.5 if ak == "half" else 1.0)
-        probs.append({"id": i, "cplx": cplx, "m": m, "n": n, "R": R, "A": A, "y": y, "x0k": x0k, "x0": x0,
-                      "eps": r.choice(epsg), "alpha_kind": ak, "alpha": alpha, "lam": lam,
-                      "api": r.choice(["function", "class"])})
+        pr = {"id": len(probs), "family": fam, "cplx": cplx, "m": m, "n": n, "R": R, "A": A, "y": y, "x0k": x0k, "x0": x0,
+              "eps": r.choice(epsg), "alpha_kind": ak, "alpha": alpha, "lam": lam, "api": r.choice(["function", "class"]),
+              "S": None, "pre": None, "rv": rv}
+        probs.append(pr)
+        return pr
+
+    for i in range(nprob):
+        cplx = (i % 5 == 4)
+        mk(cplx, r.randint(1, 5), r.randint(1, 5), r.choice([1, 1, 1, 2, 3]) if not cplx else r.choice([1, 1, 2]),
+           r.choice(["none", "zeros", "random", "random"]), r.choice(["max", "max", "half", "default"]), "base")
+    # default step size on rectangular operators (complex under-/over-determined, real under-determined)
+    for i in range(nextra):
+        cplx = (i % 4 != 3)
+        m, n = (3, r.randint(4, 5)) if i % 2 == 0 else (r.randint(4, 5), 3)
+        mk(cplx, m, n, 1, r.choice(["none", "random"]), "default", "default-alpha")
+    # sparsifying transform SOp (analysis problem), single and multiple right-hand sides
+    for i in range(nextra):
+        n = r.randint(2, 5)
+        pr = mk(False, r.randint(2, 5), n, [1, 2, 3, 2][i % 4], r.choice(["none", "zeros", "random"]), r.choice(["max", "half"]), "sop")
+        pr["S"] = make_S(r, n)
+        pr["api"] = r.choice(["function", "class"])
+    # solver OBJECT reused: a first solve (other y, other eps) precedes the observed one on the same instance
+    hist = [("default", "default"), ("default", "max"), ("max", "max"), ("max", "default")]
+    for i in range(nextra):
+        cplx = (i % 4 == 3)
+        a1, a2 = hist[i % 4]
+        pr = mk(cplx, r.randint(3, 5), r.randint(3, 5), 1, r.choice(["none", "random"]), a2, "reuse")
+        e1 = r.choice([e for e in epsg if e != pr["eps"]])
+        pr["pre"] = {"y": pr["rv"](pr["m"], 6), "eps": e1, "alpha": None if a1 == "default" else dyadic_below(1.0 / pr["lam"]),
+                     "niter": r.choice([1, 3, 7]), "kinds": [a1, a2]}
+        pr["api"] = "class"
+    for pr in probs:
+        del pr["rv"]
     return probs
 
 
@@ -253,20 +301,25 @@ def run_solver(p, mode, niter, tol, want_its=True):
     pylops, cs, sp = _pylops()
     A, y = p["A"], p["y"]
     Op = pylops.MatrixMult(A.copy(), dtype="complex128" if p["cplx"] else "float64")
+    SOp = None if p.get("S") is None else pylops.MatrixMult(np.array(p["S"], dtype=float).copy())
     yy = y.copy() if p["R"] > 1 else y[:, 0].copy()
     x0 = None if p["x0"] is None else (p["x0"].copy() if p["R"] > 1 else p["x0"][:, 0].copy())
     its = []
     cb = (lambda x: its.append(np.array(x, copy=True))) if want_its else None
     cls = cs.ISTA if mode == 0 else cs.FISTA
-    if p["api"] == "class" or p["alpha"] is None:
+    pre = p.get("pre")
+    if p["api"] == "class" or p["alpha"] is None or pre is not None:
         s = cls(Op)
+        if pre is not None:      # history: the same solver object has been used before
+            y1 = pre["y"] if p["R"] > 1 else pre["y"][:, 0]
+            s.solve(y1.copy(), niter=pre["niter"], eps=pre["eps"], alpha=pre["alpha"], tol=0.0)
         if cb is not None:
             s.callback = cb
-        x, nit, _ = s.solve(yy, x0=x0, niter=niter, eps=p["eps"], alpha=p["alpha"], tol=tol)
+        x, nit, _ = s.solve(yy, x0=x0, niter=niter, SOp=SOp, eps=p["eps"], alpha=p["alpha"], tol=tol)
         alpha = float(s.alpha)
     else:
         f = sp.ista if mode == 0 else sp.fista
-        x, nit, _ = f(Op, yy, x0=x0, niter=niter, eps=p["eps"], alpha=p["alpha"], tol=tol, callback=cb)
+        x, nit, _ = f(Op, yy, x0=x0, niter=niter, SOp=SOp, eps=p["eps"], alpha=p["alpha"], tol=tol, callback=cb)
         alpha = float(p["alpha"])
     return its, np.asarray(x), alpha, nit
 
@@ -276,26 +329,74 @@ def col(v, j, R):
     return v[:, j] if v.ndim == 2 else v
 
 
+def maxdiff(a, b, pad=False):
+    a, b = list(a), list(b)
+    if pad and a and b:      # a run that stopped because its update became exactly zero stays at its last iterate
+        while len(a) < len(b):
+            a.append(a[-1])
+        while len(b) < len(a):
+            b.append(b[-1])
+    if len(a) != len(b):
+        return float("inf")
+    d = 0.0
+    for u, v in zip(a, b):
+        u, v = np.asarray(u), np.asarray(v)
+        if u.shape != v.shape or not (np.all(np.isfinite(u)) and np.all(np.isfinite(v))):
+            return float("inf")
+        d = max(d, float(np.abs(u - v).max(initial=0) / (1 + np.abs(v).max(initial=0))))
+    return d
+
+
+def column_problem(p, j, alpha):
+    return dict(p, R=1, y=p["y"][:, j:j + 1], x0=None if p["x0"] is None else p["x0"][:, j:j + 1], alpha=alpha, api="class",
+                pre=None if p.get("pre") is None else dict(p["pre"], y=p["pre"]["y"][:, j:j + 1]))
+
+
 def run_problems(probs, tier):
     """Python side of (b): returns list of per-(problem, mode, column) records."""
+    import traceback
     niter = 30
     cap = 4000 if tier == "quick" else 6000
     recs = []
-    stats = {"conv": 0, "notconv": 0}
+    stats = {"conv": 0, "notconv": 0, "columns_compared": 0, "reuse_vs_fresh": 0}
     for p in probs:
         R = p["R"]
         x0m = p["x0"] if p["x0"] is not None else np.zeros((p["n"], R), dtype=complex if p["cplx"] else float)
         fin = {}
-        for mode in (0, 1):
-            its, x, alpha, nit = run_solver(p, mode, niter, 0.0)
-            p["alpha_used"] = alpha
-            nfin = next((k for k, v in enumerate(its) if not np.all(np.isfinite(v))), len(its))
-            for j in range(R):
-                recs.append({"kind": "run", "p": p, "mode": mode, "col": j, "x0": x0m[:, j], "alpha": alpha,
-                             "its": [col(v, j, R) for v in its[:nfin]], "nit": nit, "nonfinite": nfin < len(its)})
-            # converged run (ISTA: default-like stopping rule tol=1e-10; FISTA: same cap, tol=0)
-            _, xf, _, nf = run_solver(p, mode, cap, 1e-10 if mode == 0 else 0.0, want_its=False)
-            fin[mode] = (xf, nf)
+        try:
+            for mode in (0, 1):
+                its, x, alpha, nit = run_solver(p, mode, niter, 0.0)
+                p["alpha_used"] = alpha
+                nfin = next((k for k, v in enumerate(its) if not np.all(np.isfinite(v))), len(its))
+                for j in range(R):
+                    recs.append({"kind": "run", "p": p, "mode": mode, "col": j, "x0": x0m[:, j], "alpha": alpha,
+                                 "its": [col(v, j, R) for v in its[:nfin]], "nit": nit, "nonfinite": nfin < len(its)})
+                if R > 1 and nfin == len(its):
+                    # multiple right-hand sides = column-by-column solves
+                    for j in range(R):
+                        itj, _, _, _ = run_solver(column_problem(p, j, p["alpha"]), mode, niter, 0.0)
+                        stats["columns_compared"] += 1
+                        dd = maxdiff([col(v, j, R) for v in its], itj, pad=True)
+                        if dd > 1e-9:
+                            recs.append({"kind": "columns", "p": p, "mode": mode, "col": j, "diff": dd})
+                if p.get("pre") is not None and p["pre"]["kinds"] != ["max", "default"] and nfin == len(its):
+                    # a re-used solver object = a fresh one
+                    itf, _, af, _ = run_solver(dict(p, pre=None, api="class"), mode, niter, 0.0)
+                    stats["reuse_vs_fresh"] += 1
+                    dd = maxdiff(its, itf)
+                    if dd > 1e-9:
+                        recs.append({"kind": "reuse", "p": p, "mode": mode, "col": 0, "diff": dd, "alpha_reused": alpha, "alpha_fresh": af})
+                if p.get("S") is not None:
+                    continue
+                # converged run (ISTA: default-like stopping rule tol=1e-10; FISTA: same cap, tol=0)
+                _, xf, _, nf = run_solver(p, mode, cap, 1e-10 if mode == 0 else 0.0, want_its=False)
+                fin[mode] = (xf, nf)
+        except Exception as e:      # the solver raised on a valid problem
+            recs.append({"kind": "raised", "p": p, "col": 0, "err": "%s: %s" % (type(e).__name__, e),
+                         "trace": traceback.format_exc()[-1500:]})
+            continue
+        if p.get("S") is not None:
+            continue
         conv = fin[0][1] < cap
         if not (np.all(np.isfinite(fin[0][0])) and np.all(np.isfinite(fin[1][0]))):
             recs.append({"kind": "diverged", "p": p, "col": 0, "which": 0 if not np.all(np.isfinite(fin[0][0])) else 1})
@@ -358,12 +459,13 @@ def emit_istaR(cid, rc):
     j = rc["col"]
     pairs = ["(%s, %s)" % (common.vlit(z), common.vlit(xn)) for z, xn in zip(zs_of(rc), rc["its"])]
     return ("{| ir_id := %d%%nat; ir_n := %d%%nat; ir_mode := %d%%nat; ir_A := %s; ir_y := %s; ir_alpha := %s; ir_alphac := %s; "
-            "ir_eps := %s; ir_x0 := %s; ir_betas := %s; ir_traj := %d%%nat; ir_pairs := [%s]; ir_its := [%s] |}"
+            "ir_eps := %s; ir_x0 := %s; ir_betas := %s; ir_traj := %d%%nat; ir_pairs := [%s]; ir_its := [%s]; ir_S := %s |}"
             % (cid, p["n"], rc["mode"], common.mlit(p["A"]), common.vlit(p["y"][:, j]), q(rc["alpha"]),
                q(alphac_of(p, rc["alpha"])), q(p["eps"]), common.vlit(rc["x0"]),
                common.vlit(betas(len(rc["its"]))) if rc["mode"] == 1 else "[]",
-               (8 if rc["mode"] == 0 else 5) if p["alpha"] is not None else 3,
-               ";\n ".join(pairs), ";\n ".join(common.vlit(v) for v in rc["its"])))
+               0 if p.get("S") is not None else ((8 if rc["mode"] == 0 else 5) if p["alpha"] is not None else 3),
+               ";\n ".join(pairs), ";\n ".join(common.vlit(v) for v in rc["its"]),
+               "[]" if p.get("S") is None else common.mlit(p["S"])))
 
 
 def emit_kktR(cid, rc):
@@ -409,7 +511,7 @@ def search_descent(p, j, x0, its):
     if p["cplx"]:
         F = [obj_c(p["A"], p["y"][:, j], p["eps"], v) for v in seq]
     else:
-        F = [obj_fr(p["A"], p["y"][:, j], p["eps"], v) for v in seq]
+        F = [obj_fr(p["A"], p["y"][:, j], p["eps"], v, p.get("S")) for v in seq]
     tol = 1e-12 if p["cplx"] else Fraction(1, 10 ** 12)
     for k in range(len(F) - 1):
         if F[k + 1] > F[k] + tol * (1 + abs(F[k])):
@@ -434,10 +536,14 @@ def search_kkt(p, j, x, eps):
 
 
 def prob_dict(p, j):
+    pre = p.get("pre")
     return {"cplx": p["cplx"], "A": [[str(a) for a in r] for r in p["A"]], "y": [str(a) for a in p["y"][:, j]],
             "y_full": [[str(a) for a in r] for r in p["y"]], "R": p["R"], "col": j,
             "x0": None if p["x0"] is None else [[str(a) for a in r] for r in p["x0"]], "eps": p["eps"],
-            "alpha": p["alpha"], "api": p["api"], "m": p["m"], "n": p["n"], "lam_max": p["lam"]}
+            "alpha": p["alpha"], "api": p["api"], "m": p["m"], "n": p["n"], "lam_max": p["lam"], "family": p.get("family"),
+            "SOp": None if p.get("S") is None else [[float(a) for a in r] for r in p["S"]],
+            "previous_solve_on_same_object": None if pre is None else
+            {"y": [[str(a) for a in r] for r in pre["y"]], "eps": pre["eps"], "alpha": pre["alpha"], "niter": pre["niter"], "kinds": pre["kinds"]}}
 
 
 def prob_from(rp):
@@ -445,8 +551,12 @@ def prob_from(rp):
     A = np.array([[cv(a) for a in r] for r in rp["A"]])
     y = np.array([[cv(a) for a in r] for r in rp["y_full"]])
     x0 = None if rp["x0"] is None else np.array([[cv(a) for a in r] for r in rp["x0"]])
+    pre = rp.get("previous_solve_on_same_object")
+    if pre is not None:
+        pre = dict(pre, y=np.array([[cv(a) for a in r] for r in pre["y"]]))
     return {"cplx": rp["cplx"], "A": A, "y": y, "R": rp["R"], "x0": x0, "eps": rp["eps"], "alpha": rp["alpha"],
-            "api": rp["api"], "m": rp["m"], "n": rp["n"], "lam": rp["lam_max"]}
+            "api": rp["api"], "m": rp["m"], "n": rp["n"], "lam": rp["lam_max"], "family": rp.get("family"),
+            "S": None if rp.get("SOp") is None else np.array(rp["SOp"]), "pre": pre}
 
 
 def replay(rp):
@@ -495,6 +605,29 @@ def replay(rp):
             res = search_step(p, j, mode, x0m[:, j], [col(v, j, p["R"]) for v in its], alpha)
             print("first iterate that is not soft(z + alpha Op^H(y - Op z), eps*alpha/2):", res)
             bad = res is not None
+    elif k == "columns":
+        p = prob_from(rp["problem"])
+        j, mode = rp["problem"]["col"], rp["mode"]
+        its, _, _, _ = run_solver(p, mode, rp["niter"], 0.0)
+        itj, _, _, _ = run_solver(column_problem(p, j, p["alpha"]), mode, rp["niter"], 0.0)
+        dd = maxdiff([col(v, j, p["R"]) for v in its], itj, pad=True)
+        print("column %d of the %d-right-hand-side solve vs the single solve: max relative difference %g" % (j, p["R"], dd))
+        bad = dd > 1e-9
+    elif k == "reuse":
+        p = prob_from(rp["problem"])
+        its, _, a1, _ = run_solver(p, rp["mode"], rp["niter"], 0.0)
+        itf, _, a2, _ = run_solver(dict(p, pre=None, api="class"), rp["mode"], rp["niter"], 0.0)
+        dd = maxdiff(its, itf)
+        print("re-used solver object (alpha=%r) vs fresh object (alpha=%r): max relative difference %g" % (a1, a2, dd))
+        bad = dd > 1e-9
+    elif k == "raises":
+        p = prob_from(rp["problem"])
+        try:
+            run_solver(p, 0, 3, 0.0)
+            run_solver(p, 1, 3, 0.0)
+        except Exception as e:
+            print("raised", type(e).__name__, e)
+            bad = True
     elif k == "alpha-default":
         p = prob_from(rp["problem"])
         _, _, alpha, _ = run_solver(p, 0, 1, 0.0, want_its=False)
@@ -516,6 +649,10 @@ def replay(rp):
 def step_ref(p, j, alpha, z):
     """reference step in float (complex) or exact (real)"""
     A, y, eps = p["A"], p["y"][:, j], p["eps"]
+    if p.get("S") is not None:
+        S = np.asarray(p["S"], dtype=float)
+        v = S.T @ (z + alpha * (A.T @ (y - A @ z)))
+        return S @ (np.maximum(np.abs(v) - eps * alpha / 2, 0) * np.sign(v))
     if not p["cplx"]:
         return np.array([float(v) for v in step_fr(A, y, alpha, eps, z)])
     u = z + alpha * (A.conj().T @ (y - A @ z))
@@ -578,12 +715,15 @@ def main(tier):
         kk = kktC.get((rc["p"]["id"], rc["col"])) if rc["mode"] == 0 else None
         rc["kk"] = kk
         itemsC.append(emit_istaC(cid, rc, kk))
-    # canaries for runs: perturbed iterates / perturbed final
-    cr = dict(next(rc for rc in runsR if rc["mode"] == 0 and len(rc["its"]) > 3)); cr["its"] = [v + 1e-3 for v in cr["its"]]
+    # canaries for runs: fixed problems with deliberately wrong iterates / result (independent of the implementation)
+    pc = {"id": -1, "cplx": False, "m": 2, "n": 2, "R": 1, "A": np.array([[1.0, 2.0], [0.0, 1.0]]), "y": np.array([[1.0], [1.0]]),
+          "x0": None, "x0k": "none", "eps": 1.0, "alpha": 0.125, "lam": 5.83, "S": None, "pre": None}
+    cr = {"kind": "run", "p": pc, "mode": 0, "col": 0, "x0": np.zeros(2), "alpha": 0.125, "its": [np.array([5.0, 5.0]), np.array([5.0, 5.0])]}
     itemsR.append(emit_istaR(9004, cr)); can["istaR"] = 9004
-    ck = dict(kktR[0]); ck["xi"] = ck["xi"] + 0.5
-    itemsK.append(emit_kktR(9005, ck)); can["kktR"] = 9005
-    cc = dict(next(rc for rc in runsC if rc["mode"] == 0 and len(rc["its"]) > 3)); cc["its"] = [v + 1e-3 for v in cc["its"]]
+    itemsK.append(emit_kktR(9005, {"p": pc, "col": 0, "xi": np.array([7.0, 7.0]), "xf": np.array([7.0, 7.0])})); can["kktR"] = 9005
+    pcc = dict(pc, cplx=True, A=np.array([[1.0 + 1.0j, 2.0], [0.0, 1.0j]]), y=np.array([[1.0 + 0j], [1.0j]]))
+    cc = {"kind": "run", "p": pcc, "mode": 0, "col": 0, "x0": np.zeros(2, dtype=complex), "alpha": 0.125,
+          "its": [np.array([5.0 + 5.0j, 5.0]), np.array([5.0 + 5.0j, 5.0])]}
     itemsC.append(emit_istaC(9006, cc, None)); can["istaC"] = 9006
 
     names = {}
@@ -667,8 +807,10 @@ def main(tier):
                 R.violation("%s increases the objective at iteration %d: F=%.15g -> %.15g" % (name, dres[0], dres[1], dres[2]),
                             {"kind": "descent", "problem": pd, "niter": len(rc["its"]), "k": dres[0]})
             elif res:
-                R.violation("%s iterate %d is not soft(z + alpha Op^H(y - Op z), eps*alpha/2) (model ISTA.%s): got %s expected %s; %s eps=%g alpha=%g x0=%s R=%d"
-                            % (name, res[0] + 1, "step" if rc["mode"] == 0 else "fista_step", res[1], res[2],
+                R.violation("%s iterate %d is not %s (model %s): got %s expected %s; %s eps=%g alpha=%g x0=%s R=%d"
+                            % (name, res[0] + 1, "SOp soft(SOp^H (z + alpha Op^H(y - Op z)), eps*alpha/2)" if p.get("S") is not None
+                               else "soft(z + alpha Op^H(y - Op z), eps*alpha/2)",
+                               "CheckC13.stepS" if p.get("S") is not None else ("ISTA.step" if rc["mode"] == 0 else "ISTA.fista_step"), res[1], res[2],
                                "complex" if p["cplx"] else "real", p["eps"], rc["alpha"], p["x0k"], p["R"]),
                             {"kind": "step", "problem": pd, "mode": rc["mode"], "niter": len(rc["its"]), "k": res[0], "got": res[1], "expected": res[2]})
             else:
@@ -696,6 +838,27 @@ def main(tier):
         for cid, codes in sorted(fail[grp].items()):
             handle_run(cid, codes, idmap[cid])
 
+    nextra = {"columns": 0, "reuse": 0, "raised": 0}
+    for rc in recs:
+        if rc["kind"] in nextra:
+            nextra[rc["kind"]] += 1
+            if nextra[rc["kind"]] > 4:
+                continue
+            p = rc["p"]
+            name = "ISTA" if rc.get("mode", 0) == 0 else "FISTA"
+            if rc["kind"] == "columns":
+                R.violation("%s with %d right-hand sides differs from the column-by-column solves (column %d, max rel. diff %.3g; %s, m=%d n=%d eps=%g x0=%s)"
+                            % (name, p["R"], rc["col"], rc["diff"], "with SOp" if p.get("S") is not None else "no SOp", p["m"], p["n"], p["eps"], p["x0k"]),
+                            {"kind": "columns", "problem": prob_dict(p, rc["col"]), "mode": rc["mode"], "niter": 30})
+            elif rc["kind"] == "reuse":
+                R.violation("%s on a re-used solver object (previous solve eps=%g alpha=%s; now eps=%g alpha=%s) differs from a fresh object: "
+                            "max rel. diff %.3g, alpha re-used %r fresh %r" % (name, p["pre"]["eps"], p["pre"]["alpha"], p["eps"], p["alpha"],
+                                                                              rc["diff"], rc["alpha_reused"], rc["alpha_fresh"]),
+                            {"kind": "reuse", "problem": prob_dict(p, 0), "mode": rc["mode"], "niter": 30})
+            else:
+                R.violation("solver raised on a valid problem (%s, m=%d n=%d %s alpha=%s): %s" % (p.get("family"), p["m"], p["n"],
+                            "complex" if p["cplx"] else "real", p["alpha"], rc["err"]),
+                            {"kind": "raises", "problem": prob_dict(p, 0), "error": rc["err"], "trace": rc["trace"]})
     for rc in recs:
         if rc["kind"] == "diverged":
             p = rc["p"]
@@ -714,7 +877,10 @@ def main(tier):
         if p["alpha"] is None:
             ndef += 1
             a = p.get("alpha_used")
-            if a is None or not (abs(a * p["lam"] - 1.0) <= 1e-6):
+            if a is None and any(rc["kind"] == "raised" and rc["p"] is p for rc in recs):
+                continue
+            stale = p.get("pre") is not None and p["pre"]["alpha"] is not None     # unchanged code keeps the earlier explicit alpha
+            if a is None or not (a * p["lam"] <= 1.0 + 1e-6) or not (stale or a * p["lam"] >= 1.0 - 1e-6):
                 R.violation("default step size is not 1/lambda_max(Op^H Op): alpha=%r, 1/lambda_max=%r (m=%d n=%d %s)"
                             % (a, 1.0 / p["lam"], p["m"], p["n"], "complex" if p["cplx"] else "real"),
                             {"kind": "alpha-default", "problem": prob_dict(p, 0), "alpha_default": a})
@@ -752,6 +918,8 @@ def main(tier):
              "non-trivial run = distinct (problem, solver, column) whose iterates move and end non-zero",
         threshold_cases={"real": len(realc), "complex": len(cplxc), "half_zero_pattern": len(halfc)},
         half_bruteforce_float={"checked": nh, "own_convention_failures": len(own), "documented_convention_failures": len(doc)},
+        families={f: sum(1 for p in probs if p.get("family") == f) for f in ("base", "default-alpha", "sop", "reuse")},
+        columns_compared=stats["columns_compared"], reuse_vs_fresh_compared=stats["reuse_vs_fresh"],
         problems={"total": len(probs), "complex": sum(1 for p in probs if p["cplx"]), "multi_rhs": sum(1 for p in probs if p["R"] > 1),
                   "x0": {k: sum(1 for p in probs if p["x0k"] == k) for k in ("none", "zeros", "random")},
                   "alpha": {k: sum(1 for p in probs if p["alpha_kind"] == k) for k in ("max", "half", "default")},
@@ -772,7 +940,7 @@ def main(tier):
     R.samples = sm
     R.assumptions = ["numpy eigvalsh is the oracle for lambda_max when choosing alpha (the premise itself is re-certified exactly in Coq)",
                      "complex moduli in the Coq evaluation use a 2^-60 rational square root (execution only)"]
-    if stats["conv"] < len(probs) // 2:
+    if stats["conv"] < sum(1 for p in probs if p.get("S") is None) // 2 and not R.violations:
         R.violation("fewer than half of the ISTA runs converged within the cap: the KKT part of the check is not exercising enough cases",
                     {"kind": "generator", "stats": stats}, no_input=True)
     if axioms and not set(axioms) <= common.ALLOWED_AXIOMS:
